@@ -353,7 +353,7 @@ func (of *orderFlow) run() {
 				for _, callee := range p.Callees(x) {
 					if spec, ok := sortSpecOf(callee); ok {
 						args := cc.Args
-						if spec.slice < len(args) && args[spec.slice] == v {
+						if spec.slice < len(args) && (args[spec.slice] == v || core.Strip(args[spec.slice]) == v) {
 							of.checkSort(x, callee, spec, why)
 						}
 						continue
@@ -387,7 +387,9 @@ func (of *orderFlow) run() {
 						}
 					}
 				}
-			case *ssa.MakeInterface, *ssa.MakeClosure:
+			case *ssa.MakeInterface:
+				of.taint(x, why) // e.g. the `any` argument of sort.Slice
+			case *ssa.MakeClosure:
 				if of.inScope(r.Parent()) {
 					c.Ob(of.rule, fname+":unordered slice escapes", core.NearPos(r), fname, core.Undecided,
 						"an unordered slice ("+why+") is converted to an interface or captured by a closure; its later uses are not tracked")
@@ -425,7 +427,7 @@ func (of *orderFlow) checkSort(call ssa.CallInstruction, callee *ssa.Function, s
 		c.Ob("A-sort", fname+":natural-order sort", call.Pos(), fname, core.Discharged, "sort by the natural order of a basic type (total)")
 		return
 	}
-	elem := sliceElemType(call.Common().Args[spec.slice].Type())
+	elem := sliceElemType(core.Strip(call.Common().Args[spec.slice]).Type())
 	alts := of.oa.comparatorAlts(call.Common().Args[spec.cmp], 3, fname)
 	if len(alts) == 0 {
 		c.Ob("A-sort", fname+":sort with unresolved comparator", call.Pos(), fname, core.Undecided,
@@ -486,10 +488,14 @@ func (of *orderFlow) comparatorTotal(funcs []*ssa.Function, elem types.Type) (co
 	if n, ok := types.Unalias(elem).(*types.Named); ok && n.Obj().Pkg() != nil && n.Obj().Pkg().Path() == "time" && n.Obj().Name() == "Time" {
 		return core.Discharged, "elements are time.Time values compared by value"
 	}
-	// branch discipline: the comparator must be lexicographic
+	// branch discipline: the comparator must be lexicographic, and it must
+	// compare the keys themselves, not a (possibly non-injective) function of them
 	for f := range seen {
 		if !p.InModule(f) {
 			continue
+		}
+		if bad := transformedOperand(p, f); bad != "" {
+			return core.Violated, "comparator " + originName(f) + " compares a transformed key (" + bad + "): distinct keys can compare equal, and ties keep the unspecified input order"
 		}
 		if bad := nonLexicographicBranch(p, f); bad != "" {
 			return core.Violated, "comparator " + originName(f) + " is not a lexicographic chain (" + bad + "): equality of the compared keys cannot be concluded from a result of Equal"
@@ -724,6 +730,7 @@ func RuleAOrder(c *core.Ctx) {
 			of.analyseIteration(it)
 		}
 	}
+	of.analyseArrivalCallbacks()
 	of.run()
 	of.analysePipelines()
 	of.run()
@@ -1166,4 +1173,251 @@ func (of *orderFlow) analysePipelines() {
 		}
 	}
 	c.Note("A-stage: %d stage callbacks analysed as bodies of an unordered iteration", n)
+}
+
+// primitive comparison callees: functions whose arguments are the compared keys.
+func isPrimitiveComparison(callee *ssa.Function) bool {
+	if callee == nil {
+		return false
+	}
+	o := core.OriginOf(callee)
+	pkg := core.PkgPathOf(o)
+	switch pkg {
+	case pkgCompare:
+		switch o.Name() {
+		case "Ordered", "Time", "Decimal":
+			return true
+		}
+	case "cmp":
+		return o.Name() == "Compare" || o.Name() == "Less"
+	case "strings":
+		return o.Name() == "Compare"
+	case pkgDecimal:
+		switch o.Name() {
+		case "Cmp", "Equal", "LessThan", "GreaterThan", "LessThanOrEqual", "GreaterThanOrEqual":
+			return true
+		}
+	case "time":
+		switch o.Name() {
+		case "Before", "After", "Equal", "Compare":
+			return true
+		}
+	}
+	return false
+}
+
+// transformedOperand: some operand of a primitive comparison inside fn is the
+// result of a call that is neither a getter (a module function returning a
+// field of its receiver/argument), len/cap, nor another comparison.
+func transformedOperand(p *core.Prog, fn *ssa.Function) string {
+	if fn.Blocks == nil {
+		return ""
+	}
+	bad := ""
+	check := func(v ssa.Value, where ssa.Instruction) {
+		v = core.Strip(v)
+		call, ok := v.(*ssa.Call)
+		if !ok || bad != "" {
+			return
+		}
+		if b, ok := call.Call.Value.(*ssa.Builtin); ok {
+			if b.Name() == "len" || b.Name() == "cap" {
+				return
+			}
+		}
+		callee := call.Call.StaticCallee()
+		if callee != nil && p.InModule(callee) && isGetter(callee) {
+			return
+		}
+		if callee != nil && isPrimitiveComparison(callee) {
+			return
+		}
+		if callee != nil && p.InModule(callee) && isComparisonResult(call) {
+			return
+		}
+		bad = describeValue(p, v) + " at " + p.Pos(core.NearPos(where))
+	}
+	core.EachInstr(fn, func(ins ssa.Instruction) {
+		switch x := ins.(type) {
+		case *ssa.Call:
+			if isPrimitiveComparison(x.Call.StaticCallee()) {
+				for _, a := range x.Call.Args {
+					check(a, x)
+				}
+			}
+		case *ssa.BinOp:
+			switch x.Op {
+			case token.LSS, token.GTR, token.LEQ, token.GEQ, token.EQL, token.NEQ:
+				_, cx := x.X.(*ssa.Const)
+				_, cy := x.Y.(*ssa.Const)
+				if !cx && !cy {
+					check(x.X, x)
+					check(x.Y, x)
+				}
+			}
+		}
+	})
+	return bad
+}
+
+// isGetter: every return of fn yields a field (or a field of a field) of a
+// parameter, unchanged.
+func isGetter(fn *ssa.Function) bool {
+	if fn.Blocks == nil {
+		return false
+	}
+	ok, any := true, false
+	core.EachInstr(fn, func(ins ssa.Instruction) {
+		ret, isRet := ins.(*ssa.Return)
+		if !isRet {
+			return
+		}
+		for _, rv := range ret.Results {
+			any = true
+			v := core.Strip(rv)
+			for {
+				switch x := v.(type) {
+				case *ssa.UnOp:
+					if x.Op == token.MUL {
+						v = x.X
+						continue
+					}
+				case *ssa.FieldAddr:
+					v = x.X
+					continue
+				case *ssa.Field:
+					v = x.X
+					continue
+				case *ssa.Parameter:
+					return
+				case *ssa.Alloc:
+					// spilled value receiver
+					sts := core.StoresTo(x)
+					if len(sts) == 1 {
+						v = sts[0].Val
+						continue
+					}
+				}
+				ok = false
+				return
+			}
+		}
+	})
+	return ok && any
+}
+
+// analyseArrivalCallbacks (U4): the files of a journal are parsed
+// concurrently and arrive on the channel of syntax.ParseFileRecursively in
+// scheduling order. The per-file callback of every cpr.ForEach over that
+// channel is the body of an unordered iteration.
+func (of *orderFlow) analyseArrivalCallbacks() {
+	c, p := of.c, of.oa.p
+	pfr := p.Func(pkgSyntax, "ParseFileRecursively")
+	if pfr == nil {
+		c.Anchor(of.rule, "syntax.ParseFileRecursively")
+		return
+	}
+	n := 0
+	for _, fn := range p.SrcFuncs() {
+		core.EachInstr(fn, func(ins ssa.Instruction) {
+			call, ok := ins.(*ssa.Call)
+			if !ok {
+				return
+			}
+			callee := call.Call.StaticCallee()
+			if callee == nil || core.PkgPathOf(callee) != pkgCpr || core.BaseName(callee) != "ForEach" {
+				return
+			}
+			fromLoader := false
+			for _, root := range of.chanRoots(call.Call.Args[1], 3) {
+				if cl, ok := root.(*ssa.Call); ok && cl.Call.StaticCallee() == pfr {
+					fromLoader = true
+				}
+			}
+			if !fromLoader {
+				return
+			}
+			cb := core.FuncValue(call.Call.Args[2])
+			fname := originName(fn)
+			key := fname + ":per-file callback over the loader's channel"
+			if cb == nil {
+				c.Ob(of.rule, key, call.Pos(), fname, core.Undecided, "the per-file callback is not a function literal")
+				return
+			}
+			if !of.inScope(fn) {
+				return
+			}
+			n++
+			classes := make([]vclass, len(cb.Params))
+			for i := range classes {
+				classes[i] = clsElem
+			}
+			res := of.oa.analyseCallee(cb, classes)
+			if len(res.effects) == 0 {
+				c.Ob(of.rule, key, call.Pos(), fname, core.Discharged, "files arrive in scheduling order; the per-file callback's effects are order-free (counts, set inserts, appends to a bag that is sorted before use)")
+			}
+			seen := map[string]bool{}
+			for _, e := range res.effects {
+				k2 := key + ":" + e.kind + " " + e.symbol
+				if seen[k2] {
+					continue
+				}
+				seen[k2] = true
+				if reason, ok := orderExceptions[originName(e.fn)+":"+e.kind+" "+e.symbol]; ok {
+					c.Ob(of.rule, k2, e.pos, fname, core.Discharged, "reviewed exception: "+reason)
+					continue
+				}
+				v := core.Violated
+				if e.kind == "unknown-call" {
+					v = core.Undecided
+				}
+				c.Ob(of.rule, k2, e.pos, fname, v, "the included files are parsed concurrently and arrive in scheduling order: "+e.detail+" [in "+originName(e.fn)+" at "+p.Pos(e.pos)+"]")
+			}
+			for _, t := range res.taints {
+				switch {
+				case t.field != nil:
+					of.fieldTaintFns[t.field] = append(of.fieldTaintFns[t.field], t.fn)
+					of.taintField(t.field, "appended to per arriving file in "+originName(t.fn))
+				case t.cell != nil:
+					of.taintCell(t.cell, "appended to per arriving file in "+originName(t.fn))
+				}
+			}
+		})
+	}
+	c.Note("A-order: %d per-file callbacks over the loader's channel analysed", n)
+}
+
+// chanRoots resolves a channel value to the call(s) that created it, through
+// tuple extraction, captured variables, single-assignment cells and
+// parameters (callers' arguments, depth-limited). Arguments of the creating
+// call are not followed.
+func (of *orderFlow) chanRoots(v ssa.Value, depth int) []ssa.Value {
+	v = core.Strip(v)
+	if ex, ok := v.(*ssa.Extract); ok {
+		return []ssa.Value{ex.Tuple}
+	}
+	_, root := containerRoot(v)
+	if root == nil {
+		return nil
+	}
+	switch x := root.(type) {
+	case *ssa.Extract:
+		return []ssa.Value{x.Tuple}
+	case *ssa.Call:
+		return []ssa.Value{x}
+	case *ssa.Parameter:
+		if depth <= 0 {
+			return nil
+		}
+		var res []ssa.Value
+		for _, site := range of.callers[x.Parent()] {
+			for i, q := range x.Parent().Params {
+				if q == x && i < len(site.Common().Args) {
+					res = append(res, of.chanRoots(site.Common().Args[i], depth-1)...)
+				}
+			}
+		}
+		return res
+	}
+	return []ssa.Value{root}
 }
